@@ -129,11 +129,7 @@ verif_read_self_test_status(void)
         if (!st_word) {
                 if (!asm_set_self_tests_status)
                         return -1;
-                asm_set_self_tests_status(0x5A17E57);
-                for (uint8_t *p = __start_isal_data; p + 4 <= __stop_isal_data; p += 4)
-                        if (*(volatile int *) p == 0x5A17E57)
-                                st_word = (volatile int *) p;
-                asm_set_self_tests_status(2);
+                st_word = find_self_test_word(asm_set_self_tests_status);
                 if (!st_word)
                         die("self_test_status not found");
         }
@@ -455,8 +451,8 @@ gate_cmd(const cmd *c)
                 noaccess = m + (1 << 19);
         }
         if (!strcmp(c->t[0], "st")) {
-                if (asm_set_self_tests_status)
-                        asm_set_self_tests_status((int) cmd_i(c, 1));
+                if (asm_set_self_tests_status && verif_read_self_test_status() != -1)
+                        *st_word = (int) cmd_i(c, 1); /* direct store: the behaviour starts from this verdict */
                 return 1;
         }
         if (!strcmp(c->t[0], "stinj")) {
